@@ -254,6 +254,10 @@ func (m *multiReader) Read(ctx context.Context, out frame.Frame) (n int, err err
 		switch {
 		case err == sliceio.EOF:
 			m.q = m.q[1:]
+			if n > 0 {
+				// The reader returned its last rows together with EOF.
+				return n, nil
+			}
 		case err != nil:
 			m.err = err
 			return n, err
